@@ -8,7 +8,6 @@
 //! Also here: `RefMatcher`, the executable reference for "is this tag allowed under this chain".
 
 use std::cell::RefCell;
-use std::collections::HashMap;
 
 use ebml_iterable::specs::{easy_ebml, EbmlSpecification, EbmlTag, Master, PathPart, TagDataType};
 use serde_json::{json, Value as J};
@@ -211,42 +210,59 @@ pub fn ref_match(path: &[PathPart], chain: &[u64]) -> bool {
 // Dynamic specification
 // ---------------------------------------------------------------------------------------------
 
+/// The specification `DTag` currently implements on this thread. The path slices handed to the
+/// library as `&'static [PathPart]` live in `paths`; see the SAFETY note in `lookup`.
+struct Installed {
+    /// (id, type, index into `paths`), sorted by id
+    entries: Vec<(u64, TagDataType, usize)>,
+    paths: Vec<Box<[PathPart]>>,
+    /// what is installed, to skip re-installing the same table
+    table: Vec<ElemDef>,
+}
+
 thread_local! {
-    static CURRENT: RefCell<Vec<(u64, TagDataType, &'static [PathPart])>> = RefCell::new(Vec::new());
-    static INTERN: RefCell<HashMap<Vec<PathPart>, &'static [PathPart]>> = RefCell::new(HashMap::new());
+    static CURRENT: RefCell<Installed> = RefCell::new(Installed { entries: Vec::new(), paths: Vec::new(), table: Vec::new() });
+    static INSTALLS: std::cell::Cell<u64> = const { std::cell::Cell::new(0) };
 }
 
-fn intern(path: &[PathPart]) -> &'static [PathPart] {
-    if path.is_empty() {
-        return &[];
-    }
-    INTERN.with(|m| {
-        let mut m = m.borrow_mut();
-        if let Some(p) = m.get(path) {
-            return *p;
-        }
-        let leaked: &'static [PathPart] = Box::leak(path.to_vec().into_boxed_slice());
-        m.insert(path.to_vec(), leaked);
-        leaked
-    })
-}
-
-/// Number of distinct path slices leaked so far on this thread (bounded-memory probe).
-pub fn interned_paths() -> usize {
-    INTERN.with(|m| m.borrow().len())
+/// Number of distinct installs on this thread (probe).
+pub fn installs() -> u64 {
+    INSTALLS.with(|i| i.get())
 }
 
 /// Makes `table` the specification that `DTag` implements on this thread.
+///
+/// Must not be called while an iterator or writer over `DTag` is alive on this thread (the
+/// harness installs at the start of a run, before constructing them): the path slices of the
+/// previously installed table are freed here.
 pub fn install(table: &SpecTable) {
-    let mut v: Vec<(u64, TagDataType, &'static [PathPart])> = table.elems.iter().map(|e| (e.id, e.ty.to_lib(), intern(&e.path))).collect();
-    v.sort_by_key(|e| e.0);
-    CURRENT.with(|c| *c.borrow_mut() = v);
+    CURRENT.with(|c| {
+        let mut c = c.borrow_mut();
+        if c.table == table.elems {
+            return;
+        }
+        let paths: Vec<Box<[PathPart]>> = table.elems.iter().map(|e| e.path.clone().into_boxed_slice()).collect();
+        let mut entries: Vec<(u64, TagDataType, usize)> = table.elems.iter().enumerate().map(|(i, e)| (e.id, e.ty.to_lib(), i)).collect();
+        entries.sort_by_key(|e| e.0);
+        *c = Installed { entries, paths, table: table.elems.clone() };
+        INSTALLS.with(|i| i.set(i.get() + 1));
+    });
 }
 
 fn lookup(id: u64) -> Option<(TagDataType, &'static [PathPart])> {
     CURRENT.with(|c| {
         let c = c.borrow();
-        c.binary_search_by_key(&id, |e| e.0).ok().map(|i| (c[i].1, c[i].2))
+        c.entries.binary_search_by_key(&id, |e| e.0).ok().map(|i| {
+            let p: &[PathPart] = &c.paths[c.entries[i].2];
+            // SAFETY: the trait demands `&'static`, but the library only uses a path during the call
+            // that asked for it (it copies ids out of it, never stores the slice), and the boxed slice
+            // stays at a stable address until the next `install()` on this thread, which by contract
+            // happens only between runs, when no iterator or writer is alive. So the reference never
+            // outlives the allocation in practice. This replaces an earlier leak-per-specification
+            // scheme whose memory grew without bound over millions of runs.
+            let p: &'static [PathPart] = unsafe { &*(p as *const [PathPart]) };
+            (c.entries[i].1, p)
+        })
     })
 }
 
